@@ -24,3 +24,12 @@ mkleaf server "verif.test" ca1 "DNS:verif.test" serverAuth
 mkleaf client1 "client one" cca1 "DNS:client.one" clientAuth
 mkleaf client2 "client two" cca2 "DNS:client.two" clientAuth
 rm -f *.srl
+# a client whose identity is a chain: leaf issued by an intermediate CA under cca1 (client3.pem = leaf + intermediate)
+$O ecparam -name prime256v1 -genkey -noout -out ccai.key.sec1; $O pkcs8 -topk8 -nocrypt -in ccai.key.sec1 -out ccai.key; rm ccai.key.sec1
+$O req -new -key ccai.key -subj "/CN=verif client intermediate CA" -out ccai.csr
+printf "basicConstraints=critical,CA:TRUE,pathlen:0\nkeyUsage=critical,keyCertSign,cRLSign\n" > ccai.ext
+$O x509 -req -in ccai.csr -CA cca1.pem -CAkey cca1.key -CAcreateserial -not_before 20200101000000Z -not_after 21200101000000Z -extfile ccai.ext -out ccai.pem
+rm ccai.csr ccai.ext
+mkleaf client3 "client three" ccai "DNS:client.three" clientAuth
+cat ccai.pem >> client3.pem
+rm -f *.srl
